@@ -42,6 +42,25 @@ for _p, _w in _FAMILY_A.items():
     "design_ref": "DESIGN.md section 4 Family A",
   }
 
+CLAIMED["C14"] = {
+  "text": "Static decision of the field-set, source, extent, masking, ordering and rejection clauses: the keyframe copy writes exactly mj_resetDataKeyframe's fields from the same-named key_* arrays at [key_in[worldid]] over their full extents, every access is dominated by the validity mask 0 <= key < nkey, reset_data(mask) precedes the copy, and scalar keys out of range raise before any launch.",
+  "note": STATIC_NOTE,
+  "technique": "kernel IR value/extent matching against a MuJoCo layout oracle + dominance of the world mask + host event ordering (R-LAYOUT, R-GATE)",
+  "design_ref": "DESIGN.md section 4 C14",
+}
+CLAIMED["C15"] = {
+  "text": "Static decision of the state layout for all 2^14 signatures: per State bit the (field, size, offsets) extracted from the ASTs of _get_state/_set_state equals MuJoCo's mj_stateSize table, bits are visited in ascending order, get and set are mirror images (float()/bool() cast pairs), every access is dominated by the active mask, signatures >= 2^NSTATE raise before the launch.",
+  "note": STATIC_NOTE,
+  "technique": "syntax-directed layout extraction compared with an oracle table + mask dominance on the kernel IR (R-LAYOUT, R-GATE)",
+  "design_ref": "DESIGN.md section 4 C15",
+}
+CLAIMED["C36"] = {
+  "text": "Static decision that no simulation result can flow through process-global python state: run-time mutations of module-level bindings are confined to the kernel cache and the profiling stack; the kernel-cache key is complete (unique factory names, no captured module-level mutable, size-hashed parameters used only through .size, no keyword calls, nested kernels module=unique).",
+  "note": STATIC_NOTE,
+  "technique": "who-may-mutate analysis of module-level bindings + closure capture analysis of @cache_kernel factories (R-GLOBAL)",
+  "design_ref": "DESIGN.md section 4 C36",
+}
+
 NOT_APPLICABLE = {
   "C06": "optimality of an iterative float solve is a runtime quantity; no structural necessary condition beyond what C24/C25 decide",
   "C18": "equivalence of broadphases depends on geometric conservativeness of numeric filters and sort/scan arithmetic; a sibling text-diff of the NXN/SAP kernels would alarm on harmless refactors",
